@@ -43,7 +43,7 @@ def check_doc(case) -> Result:
     r = Result()
     nd = case.get("ndigits", 3)
     feat = case.get("feat", [])
-    r.classes = tuple(f for f in feat if f.startswith("family:") or f.startswith("twin:") or f in ("rounding-boundary-subpath", "gradient-stroke", "unsupported-in-opacity-group")) + (f"ndigits={nd}",)
+    r.classes = tuple(f for f in feat if f.startswith("family:") or f.startswith("twin:") or f in ("rounding-boundary-subpath", "gradient-stroke", "unsupported-in-opacity-group", "late-dissolving-group")) + (f"ndigits={nd}",)
     drop = bool(case.get("drop_unsupported"))
     if drop:
         r.classes += ("drop_unsupported",)
@@ -104,6 +104,24 @@ def c07_case(draw):
             q = (x + dlt, y) if draw(st.booleans()) else (x, y + dlt)
             p["a"]["d"] += f" M{x},{y} h{w} v{w} L{q[0]:.{nd + 2}f},{q[1]:.{nd + 2}f}" + draw(st.sampled_from([" z", " Z", ""]))
             feat = feat + ["rounding-boundary-subpath"]
+    if draw(st.integers(0, 5)) == 0:
+        # a translucent group that stays (two visible children) in front, and later a translucent group that only becomes
+        # removable once an invisible child has been pruned; opacities with more decimals than ndigits, so that every
+        # product has to be rounded again after it was formed
+        ops = ["0.654321", "0.37255", "0.5", "0.123456", "0.8"]
+        kept = docs.node("g", {"opacity": draw(st.sampled_from(ops))}, c=[docs.node("rect", {"x": "1", "y": "1", "width": "9", "height": "7", "fill": "red"}), docs.node("rect", {"x": "6", "y": "4", "width": "9", "height": "7", "fill": "blue"})])
+        inv = docs.node("rect", {"x": "3", "y": "3", "width": "4", "height": "4"})
+        inv["a"].update(draw(st.sampled_from([{"fill": "none"}, {"display": "none"}, {"opacity": "0"}])))
+        late = docs.node("g", {"opacity": draw(st.sampled_from(ops))}, c=[docs.node("circle", {"cx": "20", "cy": "12", "r": "6", "fill": "green", "opacity": draw(st.sampled_from(ops))}), inv])
+        if draw(st.booleans()):
+            late["c"].reverse()
+        body_at = 1 if root["c"] and root["c"][0]["tag"] == "defs" else 0
+        root["c"].insert(body_at, kept)
+        if draw(st.booleans()):
+            kept["c"].append(late)  # the late group nested in the kept one
+        else:
+            root["c"].append(late)
+        feat = feat + ["late-dissolving-group"]
     case = {"feat": feat, "ndigits": nd}
     if draw(st.integers(0, 4)) == 0:
         # the same fixed point has to be reached on the option path that drops unsupported elements
